@@ -51,6 +51,13 @@ type World struct {
 	onDeliver     []func(l *simListener, n notification)
 	cronInitProc  *Proc
 	Webhook       *Proc
+	Track         *tracker
+	foreignUIDs   map[string]string
+	Mon           *fullMon
+	tickerPausedAll bool
+	inFixpoint    bool
+	saturated     bool
+	saturating    bool
 	webhookLag    bool
 	webhookDown   bool
 	onTickerRead  func(p *Proc) bool
@@ -327,6 +334,21 @@ func (w *World) doUserOp(op *UserOp) {
 		_, err = api.Update("user", j)
 	case "deleteJob":
 		err = api.Delete("user", ResJobs, op.NS, op.Name, metav1.DeleteOptions{})
+	case "killAny", "deleteAny":
+		jobs := api.ListRaw(ResJobs)
+		if len(jobs) == 0 {
+			err = fmt.Errorf("no jobs")
+			break
+		}
+		j := jobs[int(op.OffMs)%len(jobs)].(*execution.Job)
+		if op.Kind == "deleteAny" {
+			err = api.Delete("user", ResJobs, j.Namespace, j.Name, metav1.DeleteOptions{})
+		} else {
+			jj := j.DeepCopy()
+			ts := metav1.NewTime(w.Sim.Now().Truncate(time.Second))
+			jj.Spec.KillTimestamp = &ts
+			_, err = api.Update("user", jj)
+		}
 	case "deletePod":
 		err = api.Delete("user", ResPods, op.NS, op.Name, metav1.DeleteOptions{})
 	case "setConfig":
@@ -544,6 +566,27 @@ func (w *World) restartController() {
 	w.procN++
 	w.Sim.Faults["proc.restart"]++
 	w.StartProc(fmt.Sprintf("ctl%d", w.procN), w.ctlOpts)
+}
+
+// createForeignPod places a Pod that does not belong to the Job under a task's
+// deterministic name.
+func (w *World) createForeignPod(fp *ForeignPod) {
+	pod := &corev1.Pod{ObjectMeta: metav1.ObjectMeta{Namespace: fp.NS, Name: fp.Name, Labels: map[string]string{"foreign": "true"}},
+		Spec: corev1.PodSpec{NodeName: "node-foreign", Containers: []corev1.Container{{Name: "c", Image: "busybox"}}}}
+	if fp.OwnerJob != "" {
+		ctrl := true
+		// controlled by something that is not the Job (the GC actor leaves unknown kinds alone)
+		pod.OwnerReferences = []metav1.OwnerReference{{APIVersion: "apps/v1", Kind: "ReplicaSet", Name: fp.OwnerJob, UID: "uid-foreign-owner", Controller: &ctrl}}
+	}
+	created, err := w.API.Create("foreign", pod)
+	if err != nil {
+		w.Sim.Tracef("  foreign pod create: %v", err)
+		return
+	}
+	if w.foreignUIDs == nil {
+		w.foreignUIDs = map[string]string{}
+	}
+	w.foreignUIDs[string(accessor(created).GetUID())] = fp.NS + "/" + fp.Name
 }
 
 // reapDead lets goroutines of crashed processes unwind (scheduler goroutine).
